@@ -259,4 +259,48 @@ def check(ctx: Ctx) -> list[RuleResult]:
         else:
             r5.ok({"after": norm(t.ast)[:60], "every_path": "stores the fragment in its slot or restarts the set with it"})
     out.append(r5)
+
+    # ---- R6 ---------------------------------------------------------------------------
+    # "the same schedule or no schedule - never a different one": a set with a missing fragment must not be handed to the decoder
+    # (what a truncated stream inflates to is data-dependent); the only other set decoded is the constant "no schedule" one.
+    r6 = RuleResult("R6", "only a complete fragment set is decoded", "every call of _proc_payload_set in _update_payload_set is dominated by the `None in <set>` test being false, or decodes the constant empty set; nothing else calls it", min_instances=3)
+    from .common import edge_implies, facts_at, short_circuit_facts
+
+    pps = repo.func("ramses_rf.system.schedule.Schedule._proc_payload_set")
+    r6.instances += 1
+    r6.nontrivial += 1
+    outside = [cs for cs in ctx.cg.callers_of(pps) if cs.caller is not ups]
+    if outside:
+        r6.fail(f"{outside[0].caller.short}:decodes-unchecked-set", outside[0].caller.loc(outside[0].node), f"{outside[0].caller.short} calls _proc_payload_set directly: only _update_payload_set tests the set for gaps before decoding it")
+    else:
+        r6.ok({"callers_of__proc_payload_set": sorted({cs.caller.short for cs in ctx.cg.callers_of(pps)})})
+    calls = [c for c in own_nodes(ups.node) if isinstance(c, ast.Call) and norm(c.func) == "self._proc_payload_set" and c.args]
+    if not calls:
+        raise AnalysisError("_update_payload_set no longer calls _proc_payload_set")
+    for c in calls:
+        arg = norm(c.args[0])
+        r6.instances += 1
+        r6.nontrivial += 1
+        st = c
+        while not isinstance(st, ast.stmt):
+            st = st.parent  # type: ignore[attr-defined]
+        # the constant empty set: the argument's only definition in the same block, before the call, is a copy of EMPTY_PAYLOAD_SET,
+        # with no slot written in between
+        blk = getattr(st, "parent", None)
+        sibs = next((getattr(blk, fld) for fld in ("body", "orelse", "finalbody") if isinstance(getattr(blk, fld, None), list) and st in getattr(blk, fld)), [])
+        before = sibs[: sibs.index(st)] if st in sibs else []
+        defs = [d for d in before if isinstance(d, ast.Assign) and norm(d.targets[0]) == arg]
+        if defs and "EMPTY_PAYLOAD_SET" in norm(defs[-1].value) and not any(isinstance(w, ast.Subscript) and isinstance(w.ctx, ast.Store) and norm(w.value) == arg for d in before[before.index(defs[-1]) + 1 :] for w in ast.walk(d)):
+            r6.ok({"call": f"line {c.lineno}", "set": "the constant empty set (zone has no schedule)"})
+            continue
+        goal = ast.parse(f"not (None in {arg})", mode="eval").body
+        facts = short_circuit_facts(c) + facts_at(st)
+        hit = [f"`{norm(t)[:60]}` is {v}" for t, v in facts if edge_implies(t, v, goal)]
+        # all(<set>) is the same test
+        hit += [f"`{norm(t)[:60]}` is {v}" for t, v in facts if edge_implies(t, v, ast.parse(f"all({arg})", mode="eval").body)]
+        if hit:
+            r6.ok({"call": f"line {c.lineno}", "complete_because": hit})
+        else:
+            r6.fail(f"{ups.short}:decodes-incomplete-set", ups.loc(c), f"`{norm(c)}` can be reached while a slot of {arg} is still None: a set with a gap is handed to the decoder, and whether the held fragments inflate to a (different) schedule is data-dependent")
+    out.append(r6)
     return out
